@@ -142,9 +142,7 @@ def fit_minuit_v2(fcn, bounds_dict={}, hesse=True, minos=False, **kwargs):
     ndf = len(var_names)
     # HESSE/MINOS evaluate further points: leave the model at the reported minimum
     fcn.vm.set_all([float(i) for i in m.values])
-    ret = FitResult(
-        dict(zip(var_names, m.values)), fcn, m.fval, ndf=ndf, success=m.valid
-    )
+    ret = FitResult(fcn.get_params(), fcn, m.fval, ndf=ndf, success=m.valid)
     # print(m.errors)
     ret.set_error(dict(zip(var_names, m.errors)))
     return ret
